@@ -111,9 +111,15 @@ def trace(seed, n, path):
                 probes += [v, pred(v), succ(v)]
             probes.append((c.cell_min[1] + c.cell_max[1]) / 2)
         probes += [rnd.uniform(0.0, L) for _ in range(10)]
-        for x in sorted(set(p for p in probes if 0.0 <= p < L)):
+        # the positions are looked up through ONE list object that is updated in place (as the event handlers move a unit's
+        # position list), first in ascending order and then in a shuffled one: the map must not depend on earlier look-ups
+        xs = sorted(set(p for p in probes if 0.0 <= p < L))
+        walk = xs + rnd.sample(xs, len(xs))
+        position = [1.5, 0.0]
+        for x in walk:
             try:
-                got = cells.position_to_cell([1.5, x])
+                position[1] = x
+                got = cells.position_to_cell(position)
                 ci = got.identifier[1] if got.identifier[0] == 1 else -1
             except Exception:
                 ci = -1
